@@ -3,6 +3,7 @@ import hashlib
 import heapq
 import sys
 import traceback
+from time import process_time as _process_time
 
 from twisted.internet.base import DelayedCall
 from twisted.internet import defer
@@ -41,6 +42,8 @@ class SimReactor(object):
         self._triggers = []
         self.labeler = None
         self.after_event = None   # optional invariant hook, called after every event
+        self._ev_cpu0 = None
+        self._ev_label = None
         self.running = True
         # foolscap's eventual-send queue is a process global that remembers its pending timer
         _ev = sys.modules.get("foolscap.eventual")
@@ -179,12 +182,15 @@ class SimReactor(object):
             self._hash.update(rec.encode("utf-8", "replace"))
             if self.trace is not None:
                 self.trace.append(rec)
+            self._ev_cpu0 = _process_time()       # (real CPU clock: spin detection only, never read by simulated code)
+            self._ev_label = label
             try:
                 dc.func(*dc.args, **dc.kw)
             except BaseException as e:
                 if isinstance(e, (KeyboardInterrupt, SystemExit)) or getattr(e, "sim_fatal", False):
                     raise
                 self.errors.append((label, "".join(traceback.format_exception(*sys.exc_info()))))
+            self._ev_cpu0 = None
             if self.after_event is not None:
                 self.after_event()
             return True
